@@ -2,13 +2,13 @@ SPECIFICATION SSpec
 CONSTANTS
   Gpus = {0, 1, 2, 3}
   Comps = {1, 2}
-  PortCap = 2
+  PortCap = 1
   Span = 4
   Ileave = 2
   NBanks = 2
   Payloads <- MCPayloads
   RspData <- MCRspData
-  MaxReq = 6
+  MaxReq = 4
   MaxDrain = 3
   Deviations = {}
 INVARIANTS ExactlyOnceRouting OwnerIsAddressRangeOwner PayloadPreserved RspToOriginator
